@@ -514,6 +514,9 @@ class C07(Prop):
                     c = dict(DEFAULT_CASE)
                     c.update(mode="ts", cert_reqs=cr, pfp=pfp, fp=fp)
                     yield c
+        for a in ("fp", "ah", "ahf"):
+            for san_b in ("mismatch", "match", "wildcard"):
+                yield {"kind": "overlap", "a": a, "san_b": san_b}
         yield from self.core_cases("fake", "ssl")
         # name shapes of SANS_FAKE wherever urllib3 itself (not the TLS backend) does the matching
         for san in SANS_FAKE:
@@ -554,6 +557,8 @@ class C07(Prop):
                 yield self.rand_case(rng, "real")
 
     def shrink_candidates(self, case):
+        if case.get("kind") == "overlap":
+            return
         for k, v in DEFAULT_CASE.items():
             if k != "tier" and case.get(k, v) != v:
                 c = dict(case)
@@ -561,6 +566,8 @@ class C07(Prop):
                 yield c
 
     def nontrivial(self, case, impl_out):
+        if case.get("kind") == "overlap":
+            return True
         return any(case.get(k) != v for k, v in DEFAULT_CASE.items() if k != "tier") and "wraps=-" not in impl_out[0]
 
     # ------------------------------------------------------------ building the settings of a case
@@ -610,6 +617,8 @@ class C07(Prop):
     # ------------------------------------------------------------ execution
     def execute(self, case, res):
         global _REC
+        if case.get("kind") == "overlap":
+            return self.exec_overlap(case, res)
         case = {**DEFAULT_CASE, **case}
         import urllib3
         import urllib3.connection as ucn
@@ -796,6 +805,85 @@ class C07(Prop):
         out = [obs, self.reference_demands(case, snap)]
         self.oracle(case, res, exc, origin_bytes, proxy_bytes, warned, rec, sockets_open)
         return lines, out
+
+    # ------------------------------------------------------------ two handshakes overlapping on one shared SSLContext
+    def exec_overlap(self, case, res):
+        """Connection A (fingerprint pin / assert_hostname / assert_hostname=False) and connection B (default
+        settings, certificate for ANOTHER name from the trusted CA) share one caller-supplied SSLContext and run in
+        two threads.  B's TLS socket is created while A's handshake is in progress and B's handshake completes
+        after A has finished: whatever A does to the shared context, B's request must not be sent (fake tier; the
+        fake handshake, like the stdlib, decides about the backend's own name check when the socket is created)."""
+        import urllib3
+        import hashlib as _hl
+        from ..net import Net, Server, http_response
+        res.bump("tier:fake/overlap")
+        ctx = ssl.SSLContext(ssl.PROTOCOL_TLS_CLIENT)
+        host_a, host_b = "a.example.test", DNS
+        der_a = b"DER-overlap-A"
+        ident_b = SANS[case.get("san_b", "mismatch")]
+        a_in, b_in, a_done = threading.Event(), threading.Event(), threading.Event()
+        b_started = []
+        sent_b = []
+        net = Net()
+
+        def origin(peer, req):
+            if (req.headers and dict((k.lower(), v) for k, v in req.headers).get("host", "").startswith(host_b)):
+                sent_b.append(req.target)
+            peer.reply(http_response(200, body=b"ok"))
+        net.default_server = Server(origin)
+
+        def tls_hook(sock, info):
+            c = info["context"]
+            if info["sni"] == host_a:
+                a_in.set()
+                b_in.wait(3.0)
+                return {"cert": {"subjectAltName": (("DNS", host_a),)}, "der": der_a}
+            captured = bool(c.check_hostname)           # the backend decides now, at socket creation
+            b_started.append(captured)
+            b_in.set()
+            a_done.wait(3.0)
+            if captured and not ref_match(ident_b, info["sni"], False):
+                raise ssl.SSLCertVerificationError(1, "certificate verify failed: Hostname mismatch")
+            return {"cert": cert_dict(ident_b), "der": b"DER-overlap-B"}
+        net.tls_hook = tls_hook
+
+        akw = {"fp": {"assert_fingerprint": _hl.sha256(der_a).hexdigest()}, "ah": {"assert_hostname": host_a},
+               "ahf": {"assert_hostname": False}}[case.get("a", "fp")]
+        out = {}
+
+        def run_a():
+            try:
+                pm = urllib3.PoolManager(ssl_context=ctx, retries=False, **akw)
+                out["a"] = pm.urlopen("GET", f"https://{host_a}/a").status
+            except Exception as e:              # noqa: BLE001
+                out["a"] = type(e).__name__
+            finally:
+                a_done.set()
+
+        def run_b():
+            a_in.wait(3.0)
+            try:
+                pm = urllib3.PoolManager(ssl_context=ctx, retries=False)
+                out["b"] = pm.urlopen("GET", f"https://{host_b}/b").status
+            except Exception as e:              # noqa: BLE001
+                out["b"] = type(e).__name__
+
+        with warnings.catch_warnings():
+            warnings.simplefilter("ignore")
+            with net.installed(fake_tls=True):
+                ta, tb = threading.Thread(target=run_a), threading.Thread(target=run_b)
+                ta.start(); tb.start(); ta.join(10); tb.join(10)
+        res.bump(f"overlap:a={out.get('a')}:b={out.get('b')}")
+        mismatch = not ref_match(ident_b, host_b, False)
+        if mismatch and (sent_b or out.get("b") == 200):
+            res.failures.append(Failure(signature="request-sent-unchecked:overlap-on-shared-context:hostname",
+                                        what=f"two connections sharing one caller-supplied SSLContext with overlapping handshakes "
+                                             f"(A: {sorted(akw)}, B: default settings): B's request was sent to a peer whose "
+                                             f"certificate does not match {host_b!r} — neither the TLS backend nor urllib3 "
+                                             f"checked the name (A outcome {out.get('a')}, B outcome {out.get('b')})", case=case))
+        if not mismatch and out.get("b") != 200:
+            res.failures.append(Failure(signature="overlap:matching-peer-refused", what=f"B refused although its certificate matches: {out}", case=case))
+        return [], []
 
     @staticmethod
     def exc_class(e):
